@@ -74,10 +74,14 @@ package domain
 
 //@ func (e *Endpoint) GetURLString
 //@   property C07 C03
+//@   safety
+//@   requires e != nil
 //@   ensures res == e.URLString
 
 //@ func (e *Endpoint) GetHealthCheckURLString
 //@   property C07 C03
+//@   safety
+//@   requires e != nil
 //@   ensures res == e.HealthCheckURLString
 
 //@ func (s EndpointStatus) String
@@ -109,11 +113,15 @@ package domain
 //@ spec func compatibleWith(sb []string, t string) bool = t == "auto" || len(sb) == 0 || (exists ci int :: 0 <= ci && ci < len(sb) && compatStep(sb[ci], t))
 //@ func (rp *RequestProfile) IsCompatibleWith
 //@   property C11
+//@   safety
+//@   requires rp != nil
 //@   loop 1 invariant forall ci int :: 0 <= ci && ci < i$1 ==> !compatStep(rp.SupportedBy[ci], endpointType)
 //@   ensures res == compatibleWith(rp.SupportedBy, endpointType)
 
 //@ func (rp *RequestProfile) AddSupportedProfile
 //@   property C11
+//@   safety
+//@   requires rp != nil
 //@   modifies rp.SupportedBy
 //@   loop 1 invariant forall ci int :: 0 <= ci && ci < i$1 ==> rp.SupportedBy[ci] != profileType
 //@   ensures profileType != "" ==> listedURL(profileType, rp.SupportedBy)
